@@ -14,7 +14,7 @@ fn lim(tier: Tier, depth: Option<u32>) -> Limits {
     }
 }
 
-fn closed(plan: Plan, universe: u8, tier: Tier) -> Box<dyn Config> {
+pub fn closed(plan: Plan, universe: u8, tier: Tier) -> Box<dyn Config> {
     let mut c = MapCfg::new(plan, universe);
     c.max_buckets = if super::width() == 16 { 64 } else { 32 };
     let label = c.label();
